@@ -160,6 +160,15 @@ pub fn check(a: &Analysis, _aux: &mut Aux, t: &mut Tally) -> Vec<Violation> {
                 // the flow's earlier bytes are not known to the model (cookie never observed in this
                 // history): whether a STUN change-port request was completed here cannot be told
                 t.any("stream-of-flow-unknown");
+            } else if rs != qd && is_stun_reply && rs == qd.wrapping_add(1) && {
+                // a binding request whose attributes do not tile the message (announced and present
+                // value bytes disagree, stray bytes) or whose CHANGE-REQUEST has another size than 4,
+                // and in which some walk of the attribute area can read a CHANGE-REQUEST header:
+                // malformed, the statement does not say whether the exception applies
+                let wellformed = stun::parse(app).map(|m| m.is_binding_request() && m.tiles && m.odd_change_requests() == 0).unwrap_or(false);
+                !wellformed && app.len() > 24 && app[0] == 0 && app[1] == 1 && app[20..].windows(2).any(|w| w == [0, 3])
+            } {
+                t.any("malformed-stun-request-with-change-request-bytes");
             } else if rs != qd {
                 bad("src-port", format!("reply source port {} is not the request's destination port {}", rs, qd));
             }
